@@ -24,6 +24,10 @@ RULE = ('S1: every assignment of a body from a generated menu (role leaves, '
         'overwrite=False, item assignment, deletion, first definition of an '
         'undefined name) on one long-lived enforcer, decisions after each '
         'step against the reference model.  case = one rule set; non-trivial = at least one reference.')
+RULE += (
+         ' The rule set reaches the enforcer as a ready-made Rules object'
+         ' that names no default (the enforcer attaches its own); S5 also'
+         ' redefines the default rule.')
 ASSUMPTIONS = ['generated body menu replaces random expressions',
                'reference model: R-store lookup + R-lang evaluation']
 
@@ -205,9 +209,10 @@ def inline_variants(rules):
 
 
 def vector(enf, rules, default, names):
-    world.set_rules(enf, rules, default_rule=default)
+    # the default rule is the ENFORCER's; the rule set arrives as a ready-made
+    # Rules object that names none
     enf.default_rule = default
-    enf.rules.default_rule = default
+    world.set_rules(enf, rules)
     vec = []
     for n in names:
         for roles in ROLESETS:
@@ -400,8 +405,8 @@ def run_current_rule(acc):
         for kind in ('vrec4', 'vrec3'):
             rules = {'svc:q': body, 'hop': 'rule:nowhere2',
                      'dflt': '%s:t' % kind}
-            world.set_rules(enf, rules, default_rule='dflt')
-            enf.rules.default_rule = 'dflt'
+            enf.default_rule = 'dflt'
+            world.set_rules(enf, rules)
             del RECORD[:]
             acc.case('S4', True)
             acc.ev()
@@ -460,11 +465,14 @@ def run_redefine(acc, job, depth):
             ops.append(('update', name, body))
             ops.append(('assign', name, body))
     ops.append(('delete', 'n', None))
+    dflt_ops = [('update', 'dflt', 'role:x'), ('assign', 'dflt', '!'),
+                ('delete', 'dflt', None)]
     names = ['top', 'neg', 'n', 'm', 'unknown']
     idx = 0
     for start, default in starts:
         for n in range(1, depth + 1):
-            for seq in itertools.product(ops, repeat=n):
+            for seq in itertools.product(ops + (dflt_ops if default else []),
+                                         repeat=n):
                 idx += 1
                 if idx % job['of'] != job['shard']:
                     continue
